@@ -346,7 +346,7 @@ def long_cases():
 
 
 def jobs(tier, seed):
-    n, shards = (2400, 8) if tier == "quick" else (160000, 16)
+    n, shards = (2400, 8) if tier == "quick" else (320000, 16)
     return [{"name": f"hyp-{i}", "kind": "hyp", "seed": seed * 1000 + i, "n": n // shards} for i in range(shards)] + [{"name": "long-messages", "kind": "long"}]
 
 
